@@ -63,6 +63,8 @@ pub struct CommitOracle {
 	pub coop_close_requested: Vec<bool>,
 	pub allow_force_close: bool,
 	pub check_agreement: bool,
+	/// (chan, side) -> the update batch covered by that side's latest commitment_signed contained (a fulfil, an add)
+	last_batch_fulfil_add: BTreeMap<(usize, usize), (bool, bool)>,
 }
 
 fn fail(oracle: &str, detail: String) -> Failure {
@@ -114,6 +116,7 @@ impl CommitOracle {
 			coop_close_requested: vec![false; n],
 			allow_force_close: false,
 			check_agreement: true,
+			last_batch_fulfil_add: BTreeMap::new(),
 		}
 	}
 
@@ -181,6 +184,8 @@ impl CommitOracle {
 							self.models[chan].on_update(side, Upd::Fee { rate: m.feerate_per_kw })
 						},
 						Wire::Commit(_) => {
+							let b = &self.models[chan].sides[side].batch;
+							self.last_batch_fulfil_add.insert((chan, side), (b.iter().any(|u| matches!(u, Upd::Fulfill { .. })), b.iter().any(|u| matches!(u, Upd::Add { .. }))));
 							let (number, tx) = if let Some((n, tx)) = self.pending_sign.remove(&(chan, side)) {
 								(n, Some(tx))
 							} else if let Some(n) = self.pending_resign.remove(&(chan, side)) {
@@ -236,7 +241,19 @@ impl CommitOracle {
 				},
 				M::S(SEvent::ErrorAction { from, to, action, is_error_msg, .. }) => {
 					if is_error_msg && !self.allow_force_close {
-						return Err(fail("protocol-error", format!("node {} raised an error towards node {} during honest operation: {}", from, to, action)));
+						let mut f = fail("protocol-error", format!("node {} raised an error towards node {} during honest operation: {}", from, to, action));
+						// listed finding, matched on its exact mechanism: the refused add travelled in the same
+						// commitment batch as the sender's own fulfil of an inbound HTLC (the sender's limit already
+						// counted the fulfilled value, the receiver does not until the removal is acknowledged)
+						if action.contains("Remote HTLC add would put them under remote reserve value") {
+							if let Some(chan) = sim.chans.iter().position(|c| (c.a == from && c.b == to) || (c.a == to && c.b == from)) {
+								let sender_side = Self::side_of(sim, chan, to);
+								if self.last_batch_fulfil_add.get(&(chan, sender_side)) == Some(&(true, true)) {
+									f = f.with_key("protocol-error/remote-reserve/add-batched-with-own-uncommitted-fulfil");
+								}
+							}
+						}
+						return Err(f);
 					}
 				},
 				M::S(SEvent::Ldk { node, ev }) => {
